@@ -46,6 +46,7 @@ RULE_KINDS = {
     "box/length-prefix-width": "structural", "box/guards-dominate-writes": "structural", "box/no-coercion": "structural", "limits/": "structural", "framing/prefix": "structural",
     "framing/boundary-normal-form": "structural", "framing/slices-contiguous": "structural", "reader/class-shape": "structural", "reader/limit-toggle": "structural",
     "argument/pairing": "structural", "argument/list-prefix-table": "structural", "datetime/layout-table": "structural",
+    "argument/list-row-container-fresh": "structural", "argument/list-rows-independent": "bounded",
     "send/refused-box-writes-nothing": "structural",   # no refusing site reachable after a transport write in sendBox (CFG reachability)
     "send/refused-box-then-good-box": "bounded",
     # bounded: the code interpreted on enumerated inputs / stream segmentations
@@ -430,6 +431,31 @@ def check_boxes_of_arguments(ctx, mod, consts):
             _need(k2, back, "AmpList.fromStringProto")
             ok = k2 == "value" and back == v
         ctx.check(ok, "argument/box-round-trip", f"{QA}.AmpList | {len(v)} boxes", f"AmpList: {v!r} is encoded as {wire!r} ({k1}; oracle {want!r}) and decoded as {back!r}")
+    # rows are independent: a row that omits an optional column must not inherit the value an earlier row had (every order of present / absent)
+    al2 = Inst(AL, subargs=[(b"id", Inst(I, optional=False)), (b"name", Inst(U, optional=True)), (b"n", Inst(I, optional=True))], optional=False)
+    for label, v in (("optional column present, then absent", [{"id": 1, "name": "one", "n": 5}, {"id": 2, "name": None, "n": None}]),
+                     ("optional column absent, present, absent", [{"id": 1, "name": None, "n": None}, {"id": 2, "name": "two", "n": 0}, {"id": 3, "name": None, "n": 7}, {"id": 4, "name": None, "n": None}])):
+        ev = _ev(ctx, mod, consts)
+        k1, wire = run_eval(lambda: ev.method(al2, "toStringProto", [[dict(x) for x in v], None]))
+        _need(k1, wire, "AmpList.toStringProto")
+
+        def row(x):
+            d = {b"id": b"%d" % x["id"]}
+            if x["name"] is not None:
+                d[b"name"] = x["name"].encode("utf-8")
+            if x["n"] is not None:
+                d[b"n"] = b"%d" % x["n"]
+            return d
+        want = b"".join(oracle_encode(row(x)) for x in v)
+        back = None
+        ok = k1 == "value" and wire == want
+        if k1 == "value" and isinstance(wire, bytes):
+            k2, back = run_eval(lambda: ev.method(al2, "fromStringProto", [wire, None]))
+            _need(k2, back, "AmpList.fromStringProto")
+            ok = ok and k2 == "value" and back == v
+        ctx.check(ok, "argument/list-rows-independent", f"{QA}.AmpList | {label}",
+                  f"AmpList rows {v!r} are decoded as {back!r} (encoded {k1}; an independent parser reads {oracle_parse(wire) if isinstance(wire, bytes) else None!r}): a row without an "
+                  "optional value must not carry the value of an earlier row")
 
 
 # ---- structural layer: for-all-inputs verdicts on the normalised code ---------------------------------------------------
@@ -675,6 +701,56 @@ def _struct_codec_tables(ctx, mod, consts):
                       f"the writer puts the sign at character {signs[0][1]}; the reader reads {src(idx[0])}")
 
 
+def _struct_fresh_row_containers(ctx, mod):
+    """Argument classes that serialise a SEQUENCE of rows (AmpList ...): the box a row is converted into is created inside the per-row scope (the
+    comprehension element or the loop body), so no box object is shared between two rows - Argument.toBox leaves an absent optional value out, which
+    only means 'absent' in a box that started empty."""
+    from sa.astx import call_name
+    n_sites = 0
+    for c in _argument_classes(mod):
+        for mname in ("toStringProto", "toString"):
+            f = methods(c).get(mname)
+            if f is None:
+                continue
+            q = f"{QA}.{c.name}.{mname}"
+            # per-row scopes: for loops and comprehensions
+            scopes = [x for x in ast.walk(f) if isinstance(x, (ast.For, ast.ListComp, ast.GeneratorExp, ast.SetComp, ast.DictComp))]
+            for sc in scopes:
+                inner = sc.body if isinstance(sc, ast.For) else ([sc.elt] if not isinstance(sc, ast.DictComp) else [sc.key, sc.value])
+                inner_ids = {id(x) for st in inner for x in ast.walk(st)}
+                for call in [x for st in inner for x in ast.walk(st) if isinstance(x, ast.Call)]:
+                    # a call that fills a container with the row: _objectsToStrings(objects, arglist, <box>, proto) / <arg>.toBox(name, <box>, objects, proto)
+                    box = None
+                    if call_name(call) == "_objectsToStrings" and len(call.args) >= 3:
+                        box = call.args[2]
+                    elif isinstance(call.func, ast.Attribute) and call.func.attr == "toBox" and len(call.args) >= 2:
+                        box = call.args[1]
+                    if box is None:
+                        continue
+                    n_sites += 1
+                    cons = f"{q} | {src(call)}"
+                    if isinstance(box, ast.Call):
+                        ctx.ok("argument/list-row-container-fresh", cons, f"`{src(box)}` is constructed for each row")
+                        continue
+                    if isinstance(box, ast.Name):
+                        binds = [st for st in ast.walk(f) if isinstance(st, ast.Assign) and any(isinstance(t, ast.Name) and t.id == box.id for t in st.targets)]
+                        inside = [b for b in binds if id(b) in inner_ids]
+                        if binds and not inside and all(isinstance(b.value, (ast.Call, ast.Dict)) for b in binds):
+                            ctx.violation("argument/list-row-container-fresh", cons,
+                                          f"every row is converted into the same container `{box.id}` (created once by `{src(binds[0])}`, outside the per-row scope): an optional "
+                                          "value that is None writes nothing, so the row keeps the value an earlier row put there - [{'id': 1, 'name': 'one'}, {'id': 2, 'name': None}] "
+                                          "decodes with name 'one' twice")
+                            continue
+                        if inside and isinstance(sc, ast.For):
+                            first_use = min((getattr(x, "lineno", 0) for st in inner for x in ast.walk(st) if x is call), default=0)
+                            if all(getattr(b, "lineno", 0) <= first_use for b in inside):
+                                ctx.ok("argument/list-row-container-fresh", cons, f"`{box.id}` is re-created in the loop body before it is filled")
+                                continue
+                    ctx.note(f"argument/list-row-container-fresh: {cons}: where the container comes from is not recognised; clause left to argument/list-rows-independent (bounded)")
+    if not n_sites:
+        ctx.note("argument/list-row-container-fresh: no per-row conversion into a box recognised in any Argument class")
+
+
 def _raising_methods(mod) -> Dict[str, List[Tuple[ast.ClassDef, ast.FunctionDef, bool]]]:
     """Method name -> [(class, def, is generator)] for the methods of the module's classes whose body (private helpers of the same class followed)
     contains a raise statement: calling them - or, for a generator, advancing it - may refuse the box."""
@@ -848,6 +924,8 @@ def check(ctx):
         _struct_framing(ctx, consts)
     with ctx.section("structural: codec tables"):
         _struct_codec_tables(ctx, mod, consts)
+    with ctx.section("structural: list rows"):
+        _struct_fresh_row_containers(ctx, mod)
     with ctx.section("structural: sendBox is atomic"):
         _struct_send_atomic(ctx, mod, consts)
     with ctx.section("AmpBox.serialize"):
